@@ -199,6 +199,21 @@ fn parts_of<T: Elem>(v: &Value) -> Option<(Vec<T>, u64)> {
 	Some((items, idx))
 }
 
+/// buffer lengths for the oversized-buffer fault: MAX-1 (still valid), MAX, MAX+1, MAX+2 and lengths whose low bits
+/// (length mod (MAX+1)) exceed the stored index, so that a narrowing cast of the length would let them through
+pub fn oversize_len(d: u64, idx: u64) -> u64 {
+	match d {
+		0 => PMAX - 1,
+		1 => PMAX,
+		2 => PMAX + 1,
+		3 => PMAX + 2,
+		4 => PMAX + 1 + idx + 1,
+		5 => 2 * (PMAX + 1) + idx + 1,
+		6 => 3 * (PMAX + 1) + idx + 7,
+		_ => PMAX + 1 + (PMAX - 1),
+	}
+}
+
 /// the (buffer length, oldest-index) pairs `Window`'s Deserialize documents as acceptable
 fn wellformed(len: u64, idx: u64) -> bool {
 	(idx < len && len < PMAX) || (len == 0 && idx == 0)
@@ -636,7 +651,7 @@ pub fn run_case<T: Elem>(case: &Case, stats: &mut Stats) -> Vec<Violation> {
 						if PMAX > 255 {
 							continue;
 						}
-						let target = (PMAX + d - 1) as usize;
+						let target = oversize_len(*d, idx) as usize;
 						let mut b = buf.clone();
 						while b.len() < target {
 							b.push(T::label(1_000_000 + b.len() as u32));
@@ -832,7 +847,7 @@ fn gen_ops(r: &mut Rng, n: u64, tier: Tier, faults: bool) -> Vec<WOp> {
 				0 => Corrupt::IndexEqLen,
 				1 => Corrupt::IndexPlus(r.range(1, 5)),
 				2 => Corrupt::IndexMax,
-				3 => Corrupt::BufLenAroundMax(r.below(3)),
+				3 => Corrupt::BufLenAroundMax(r.below(8)),
 				4 => Corrupt::EmptyBuf(r.below(2)),
 				5 => Corrupt::WideIndex,
 				6 => Corrupt::DropField(r.below(2) as u8),
